@@ -373,6 +373,14 @@ func (g *G) addDependent(bs *schema.BlockSchema, depth int) {
 		}
 		body := g.Body(depth, false)
 		body.AnyAttribute = nil
+		// dependent bodies often come without detail / description of their own
+		// (the label's are shown instead)
+		if g.coin(0.35) {
+			body.Detail = ""
+		}
+		if g.coin(0.25) {
+			body.Description = lang.MarkupContent{}
+		}
 		// nested blocks of dependent bodies often carry their own extensions (the
 		// decoder propagates DynamicBlocks into copies of them)
 		for _, bn := range sortedBlockNames(body.Blocks) {
@@ -395,6 +403,11 @@ func (g *G) addDependent(bs *schema.BlockSchema, depth int) {
 			kind := g.pick(3)
 			name := g.id("key2_")
 			body.Attributes[name] = g.depKeyAttr(kind)
+			// a second-level key attribute left out of the block contributes its default value
+			l2Default := kind == 0 && g.coin(0.4)
+			if l2Default {
+				body.Attributes[name].DefaultValue = schema.DefaultValue{Value: cty.StringVal("dv0")}
+			}
 			for j, m := 0, 1+g.pick(2); j < m; j++ {
 				dk2 := schema.DependencyKeys{Labels: append([]schema.LabelDependent{}, dk.Labels...), Attributes: append([]schema.AttributeDependent{}, dk.Attributes...)}
 				_, ev := DepVal(kind, j)
@@ -409,6 +422,9 @@ func (g *G) addDependent(bs *schema.BlockSchema, depth int) {
 					b2.Attributes = map[string]*schema.AttributeSchema{}
 				}
 				b2.Attributes[name] = g.depKeyAttr(kind)
+				if l2Default {
+					b2.Attributes[name].DefaultValue = schema.DefaultValue{Value: cty.StringVal("dv0")}
+				}
 				g.addMarkers(b2)
 				bs.DependentBody[k2.Key] = b2
 				info.Keys = append(info.Keys, k2)
